@@ -31,7 +31,7 @@ def docs(ctx, n, finite=True, depth=4, plain=False):
              ('a', [one, ('u', 9)]), ('a', [('u', 10)]), ('u', 32), ('u', 8224), ('o', [(b'msg', ('s', b'done\n'))]), ('s', b'tab\t'),
              ('o', [(b'id', ('s', b'abcdef')), (b'n', one)]), ('a', [T, one]), ('a', [N, ('u', 2), N]),
              ('o', [(b'B', one), (b'a', ('u', 2))]), ('o', [(b'ID', one), (b'Name', ('u', 2)), (b'user_id', ('u', 3))])]
-    out = list(base)
+    out = list(base) + size_corpus()
     g = ctx.g
     for _ in range(n):
         r = ctx.rng.random()
@@ -43,6 +43,30 @@ def docs(ctx, n, finite=True, depth=4, plain=False):
             out.append(g.obj(depth=3, finite=finite, plain=plain))
         else:
             out.append(g.value(depth=depth, finite=finite, plain=plain))
+    return out
+
+
+def size_corpus():
+    """wide and deep documents that the random trees never reach (a small fixed-size buffer, a u8 counter, a sort or hash
+    threshold, a recursion guard all need sizes): arrays / objects of 17, 33, 64, 130, 300 members incl. late repeats of early
+    elements and nested empty containers; nesting 17, 33, 64, 129, 130, 200 levels"""
+    N = ('n',)
+    out = []
+    key = lambda i: ('k%03d' % i).encode()
+    for w in (17, 33, 64, 130, 300):
+        nums = [('u', i) for i in range(w)]
+        out.append(('a', nums + [('u', 0), ('u', w // 2), ('u', w - 1)]))                       # late repeats of early elements
+        out.append(('a', [('s', key(i % 20)) for i in range(w)]))                               # many repeats
+        out.append(('a', [('a', []) if i % 3 == 0 else ('o', []) if i % 3 == 1 else ('u', i) for i in range(w)]))
+        out.append(('o', [(key(i), ('u', i) if i % 4 else ('a', [N, ('o', [])])) for i in range(w)]))
+        out.append(('a', [('o', [(b'id', ('u', i)), (b'tags', ('a', [] if i % 2 == 0 else [('s', b'x')]))]) for i in range(w // 4 + 1)]))
+    for d in (17, 33, 64, 129, 130, 200):
+        a, o, m = ('u', 7), ('s', b'leaf'), ('a', [])
+        for i in range(d):
+            a = ('a', [a])
+            o = ('o', [(b'k', o)])
+            m = ('a', [m, ('o', [])]) if i % 2 else ('o', [(b'x', m)])
+        out += [a, o, m]
     return out
 
 
